@@ -31,8 +31,13 @@ Isolation(s, r) ==
   LET p == r.proj IN
   UserChecked(s) =>
     IF ~Privileged(p.psr)
-    THEN \* still in user mode: nothing outside user space was read, written or fetched
-         /\ \A a \in ObsAddrs(p) \cup DiffAddrs(p) : InUser(a)
+    THEN \* still in user mode: nothing outside user space was read, written or fetched.  (One way to be "still" in
+         \* user mode is to have entered supervisor mode and left it within the step: with the saved supervisor
+         \* stack pointer set next to the PSR port, the first push of a trap or exception entry rewrites the PSR with
+         \* the user-mode value just saved.  Those two pushes are what the ELSE branch allows; they are told here by
+         \* the saved stack pointer of the state before.)
+         /\ \A a \in ObsAddrs(p) \cup DiffAddrs(p) :
+               InUser(a) \/ (a >= IO_START /\ (a = Wrap(s.ssp.v - 1) \/ a = Wrap(s.ssp.v - 2)))
          \* a rejected attempt leaves memory and devices untouched
          /\ r.res \in {"AccessViolation", "PrivilegeViolation"} =>
                (p.memdiff = <<>> /\ p.kbd = s.kbd /\ p.disp = s.disp)
